@@ -56,6 +56,7 @@ def main():
         ("log", lambda: torch.log(Y), lambda: torch.log(y)),
         ("log1p", lambda: torch.log1p(Y), lambda: torch.log1p(y)),
         ("sqrt", lambda: torch.sqrt(Y), lambda: torch.sqrt(y)),
+        ("rsqrt", lambda: torch.rsqrt(Y), lambda: torch.rsqrt(y)),
         ("sigmoid", lambda: torch.sigmoid(X), lambda: torch.sigmoid(x)),
         ("tanh", lambda: torch.tanh(X), lambda: torch.tanh(x)),
         ("atan", lambda: torch.atan(X), lambda: torch.atan(x)),
